@@ -127,6 +127,106 @@ def assignments(prog: list[dict[str, Any]], seeds: list[int]) -> list[tuple[str,
     return out
 
 
+# --------------------------------------------------------------------------- adjacency
+#
+# "affect only whitespace in literal text adjacent to the marked markup": a marker on a side of a piece of markup
+# that has no literal text next to it - other markup, the inside of a comment, the start or end of the template -
+# has nothing to act on, so the output may not depend on it at all, character for character.  The sources are
+# flat sequences written by this module (so that adjacency is known by construction), optionally wrapped in an
+# always-true `if` / a one-pass `for`.
+
+ADJ_KINDS = ("text", "text", "text", "out", "hash", "inline", "block", "assign", "echo", "raw", "liquid", "open", "close")
+
+
+@st.composite
+def adj_case(draw: Any) -> dict[str, Any]:
+    n = draw(st.integers(2, 8))
+    items: list[list[Any]] = []
+    depth = 0
+    for _ in range(n):
+        k = draw(st.sampled_from(ADJ_KINDS))
+        if k == "text":
+            if items and items[-1][0] == "text":
+                k = draw(st.sampled_from(["out", "hash", "inline", "block", "assign"]))
+            else:
+                items.append(["text", draw(static_text())])
+                continue
+        if k == "open":
+            if depth >= 2:
+                continue
+            depth += 1
+            items.append(["open", draw(st.sampled_from(["if", "for", "unless", "capture"]))])
+        elif k == "close":
+            if depth == 0:
+                continue
+            depth -= 1
+            items.append(["close"])
+        else:
+            items.append([k])
+    for _ in range(depth):
+        items.append(["close"])
+    return {"kind": "adj", "items": items, "base": draw(st.lists(st.integers(0, 3), min_size=40, max_size=40)),
+            "alt": draw(st.lists(st.integers(0, 3), min_size=40, max_size=40)),
+            "default": draw(st.sampled_from(["+", "-", "~"])), "suppress": draw(st.booleans())}
+
+
+def adj_source(items: list[list[Any]], marks: list[int], alt: list[int] | None) -> tuple[str, int, int]:
+    """(source, number of slots, number of free slots).  Slot values come from `marks`; with `alt`, every free
+    slot (no literal text on its side) takes its value from `alt` instead."""
+    # expand block pairs; pieces are ("text", s) or ("mk", head, tail) with head/tail the markup text around markers
+    pieces: list[tuple[Any, ...]] = []
+    stack: list[str] = []
+    for it in items:
+        k = it[0]
+        if k == "text":
+            pieces.append(("text", it[1]))
+        elif k == "out":
+            pieces.append(("mk", "{{", " 'o' ", "}}"))
+        elif k == "hash":
+            pieces.append(("mk", "{#", " c ", "#}"))
+        elif k == "inline":
+            pieces.append(("mk", "{%", " # c ", "%}"))
+        elif k == "block":
+            pieces.append(("mk", "{%", " comment ", "%}"))
+            pieces.append(("ctext", "  c  "))
+            pieces.append(("mk", "{%", " endcomment ", "%}"))
+        elif k == "assign":
+            pieces.append(("mk", "{%", " assign v = 1 ", "%}"))
+        elif k == "echo":
+            pieces.append(("mk", "{%", " echo 'e' ", "%}"))
+        elif k == "liquid":
+            pieces.append(("mk", "{%", " liquid echo 'l' ", "%}"))
+        elif k == "raw":
+            pieces.append(("mk", "{%", " raw ", "%}"))
+            pieces.append(("text", " r "))
+            pieces.append(("mk", "{%", " endraw ", "%}"))
+        elif k == "open":
+            stack.append(it[1])
+            head = {"if": " if true ", "unless": " unless false ", "for": " for i in (1..1) ", "capture": " capture cap "}[it[1]]
+            pieces.append(("mk", "{%", head, "%}"))
+        elif k == "close":
+            t = stack.pop()
+            pieces.append(("mk", "{%", " end" + t + " ", "%}"))
+            if t == "capture":
+                pieces.append(("mk", "{{", " cap ", "}}"))
+    out: list[str] = []
+    slot = 0
+    free = 0
+    for i, pc in enumerate(pieces):
+        if pc[0] != "mk":
+            out.append(pc[1])
+            continue
+        sides = []
+        for nb in (pieces[i - 1] if i > 0 else None, pieces[i + 1] if i + 1 < len(pieces) else None):
+            is_free = nb is None or nb[0] != "text"
+            v = (alt if (alt is not None and is_free) else marks)[slot % len(marks)]
+            free += is_free
+            slot += 1
+            sides.append(MARKS[v])
+        out.append(pc[1] + sides[0] + pc[2] + sides[1] + pc[3])
+    return "".join(out), slot, free
+
+
 # --------------------------------------------------------------------------- exact model (static control flow)
 
 ws_run = st.text(alphabet=WS_CHARS, max_size=3)
@@ -390,15 +490,38 @@ class C18(Prop):
     batch = 150
 
     def n_random(self, tier: str) -> int:
-        return 6000 if tier == "quick" else 150000
+        return 12000 if tier == "quick" else 300000
 
     def strategy(self, tier: str, disabled: frozenset[str]):
-        return st.one_of(general_case(), static_case(), static_case())
+        return st.one_of(general_case(), static_case(), static_case(), adj_case(), adj_case(), adj_case())
 
     def budget_s(self, tier: str) -> float:
         return 240 if tier == "quick" else 3000
 
+    def _check_adj(self, case: Any) -> Result:
+        res = Result()
+        res.labels.append("adjacency")
+        src_a, n_slots, n_free = adj_source(case["items"], case["base"], None)
+        src_b, _, _ = adj_source(case["items"], case["base"], case["alt"])
+        res.evaluations = 2
+        res.nontrivial = n_free > 0 and src_a != src_b and any(
+            it[0] == "text" and it[1] and (it[1][0].isspace() or it[1][-1].isspace()) for it in case["items"])
+        outs = []
+        for src in (src_a, src_b):
+            env = make_env({}, shopify=True, default_trim=case["default"], suppress=case["suppress"])
+            try:
+                outs.append(("ok", env.from_string(src).render()))
+            except LiquidError as err:
+                outs.append(("err", type(err).__name__))
+        if outs[0] != outs[1]:
+            res.fail("adjacency", "marker-without-adjacent-text-has-an-effect",
+                     f"default_trim={case['default']} suppress={case['suppress']}: {src_a!r} -> {outs[0]!r} but "
+                     f"{src_b!r} -> {outs[1]!r}; the two differ only in markers that have no literal text on their side")
+        return res
+
     def check(self, case: Any, disabled: frozenset[str] = frozenset()) -> Result:  # noqa: PLR0912, PLR0915
+        if case["kind"] == "adj":
+            return self._check_adj(case)
         res = Result()
         prog = case["prog"] if case["kind"] == "static" else case["prog"]["main"]
         data = case.get("data") or {}
@@ -504,6 +627,9 @@ class C18(Prop):
         return found[0]
 
     def sample(self, case: Any) -> Any:
+        if case["kind"] == "adj":
+            return {"kind": "adj", "src": adj_source(case["items"], case["base"], None)[0][:300],
+                    "src_free_markers_changed": adj_source(case["items"], case["base"], case["alt"])[0][:300]}
         prog = case["prog"] if case["kind"] == "static" else case["prog"]["main"]
         p = assign_markers(prog, iter(["-", "~", "+", ""] * 200).__next__)
         return {"kind": case["kind"], "src_with_markers": to_source(p, 0)[:300], "marker_slots": count_slots(prog)}
